@@ -25,7 +25,7 @@ Proof.
   destruct (mm_pay m) as [|b0 rest] eqn:Ep.
   { intro H. inversion H; subst. unfold fan, msg_cost. rewrite Ep. unfold lenN. cbn [length]. lia. }
   destruct (bc_ts fx cf c g m) as [t| |]; cbn [bind]; try discriminate.
-  destruct (bc_rtsp fx rf acfg c g m) as [r| |]; cbn [bind]; try discriminate.
+  destruct (bc_rtsp fx rf acfg c g m) as [[r [sdp' rsubs']]| |]; cbn [bind]; try discriminate.
   destruct (subs_step fx (g_rtmp_hasgop g) m (g_rtmp_subs g)); cbn [bind]; try discriminate.
   destruct (subs_step fx (g_flv_hasgop g) m (g_flv_subs g)); cbn [bind]; try discriminate.
   destruct (bc_rgop fx c g m); cbn [bind]; try discriminate.
